@@ -386,6 +386,27 @@ pub fn check(world: &World, j: &Judgement, rr: &RunResult, cfg: &OracleCfg) -> V
             }
             if !r.user.contains(&content) {
                 bad.push(format!("content {:?} not verbatim in user message {:?}", content, r.user));
+            } else if sel.layout.attr("check-ai-pattern").is_some() {
+                // "the extract", not more: what is left of the message once the condition and the
+                // extract are taken out (the template's own words) must not hold further lines of
+                // the block
+                let mut rest = r.user.clone();
+                if let Some(i) = rest.rfind(&content) {
+                    rest.replace_range(i..i + content.len(), "");
+                }
+                if let Some(i) = rest.find(cond) {
+                    rest.replace_range(i..i + cond.len(), "");
+                }
+                for line in sel.layout.content.lines() {
+                    let t = line.trim();
+                    if t.len() >= 3 && !content.contains(t) && !cond.contains(t) && rest.contains(t) {
+                        bad.push(format!(
+                            "user message carries more of the block than the extract {:?}: also {:?}",
+                            content, t
+                        ));
+                        break;
+                    }
+                }
             }
             if bad.is_empty() {
                 best = Some(bad);
